@@ -156,9 +156,9 @@ func scenario(w *vt.Writer, t *conc.Target, ops []*op, G, K int, sc int) {
 }
 
 func kFor(t *conc.Target, G int, full bool) int {
-	k := 12
+	k := 40
 	if full {
-		k = 40
+		k = 160
 	}
 	switch {
 	case t.Cost == 2:
@@ -167,7 +167,7 @@ func kFor(t *conc.Target, G int, full bool) int {
 			k = 4
 		}
 	case t.Cost == 1 || t.Big:
-		k /= 2
+		k /= 4
 	}
 	if G >= 32 && k > 4 {
 		k /= 2
